@@ -1925,6 +1925,18 @@ TARGETS2 = {
         ("varintDimension.c", "varintDimensionPairEntrySetBit", "dimEntrySetBit"),
         ("varintDimension.c", "varintDimensionPairEntryToggleBit", "dimEntryToggleBit"),
     ],
+    "CGroup": [
+        ("import", "CSizes", "varintGroup.c:varintGroupWidthDecode_:groupWidthDecode:legacy,"
+                             "varintGroup.c:varintGroupWidthEncode_:groupWidthEncode:legacy,"
+                             "varintGroup.c:varintGroupBitmapSize_:groupBitmapSize:legacy"),
+        ("import", "CExternal", "varintExternal.c:varintExternalLoadFromEncodingLittleEndian_:extLoadLE,"
+                                "varintExternal.c:varintExternalGet:extGet"),
+        ("varintGroup.c", "varintGroupGetFieldWidth", "groupGetFieldWidth"),
+        ("varintGroup.c", "varintGroupGetSize", "groupGetSize"),
+        ("varintGroup.c", "varintGroupSize", "groupSize"),
+        ("varintGroup.c", "varintGroupGetField", "groupGetField"),
+        ("varintGroup.c", "varintGroupDecode", "groupDecode"),
+    ],
     # the template header src/varintPacked.h as instantiated by harness/vw_packed.c (12-bit values, uint32_t slots)
     "CPacked": [
         ("harness/vw_packed.c", "varintPacked12Get", "packed12Get"),
